@@ -45,7 +45,11 @@ fn subprocess_result(mut args: Args) -> Result<i32> {
             let linker = crate::Linker::new();
             let _outputs = linker.run(&args, &thread_pool)?;
             crate::timing::finalise_perfetto_trace()?;
+            #[cfg(wild_verif)]
+            crate::verif::fault_point("pre_inform")?;
             inform_parent_done(&fds);
+            #[cfg(wild_verif)]
+            crate::verif::fault_point("post_inform")?;
             Ok(0)
         }
         -1 => {
